@@ -81,6 +81,7 @@ def check_C01(tier, seed):
     catcheck.prepare(w, cases)
     agg = catcheck.explore(w, rep, [c for c in cases if not c.id.endswith("_twin")], "C01", r"Harness_C01$", N, tmo, "ref", seed=seed,
                            validate_pkgs=6 if tier == "quick" else 24)
+    run_lemmas(w, rep, "C01", ["Seq", "Choice", "And", "Not", "Star", "Plus", "Opt", "Label", "Any", "Lit", "Class"], 1 if tier == "quick" else 2)
     twin = run_engine(w, pkgs="./" + cases[-1].harness_rel, harness="Harness_TWIN$", nmin=1, nmax=1, timeout_s=60)
     tw = sum(len(j.get("counterexamples") or []) for j in twin.get("jobs") or [])
     if tw == 0:
@@ -174,7 +175,7 @@ def check_C15(tier, seed):
 
 def run_ref_property(prop, tier, seed, cat, hprops, Nq, Nt, tq=60, tt=900, flagsets_q=("std",), flagsets_t=("std", "opt"),
                      unconstrained=False, bounds_extra=None, assumptions=(), file_name="", level="model_checking", quick_stride=1,
-                     post=None, max_steps=2_000_000):
+                     post=None, max_steps=2_000_000, lemmas=None):
     rep = Report(prop, tier, seed, level)
     w = Work()
     w.build_pigeon()
@@ -191,6 +192,8 @@ def run_ref_property(prop, tier, seed, cat, hprops, Nq, Nt, tq=60, tt=900, flags
     agg = catcheck.explore(w, rep, cases, prop, r"Harness_%s$" % hprops[0], N, tmo, "ref", seed=seed,
                            validate_pkgs=6 if quick else 24, max_steps=max_steps)
     twin_check(w, rep, twin)
+    if lemmas:
+        run_lemmas(w, rep, prop, lemmas, 1 if quick else 2)
     b = {"input_bytes_max": N, "grammars": len(cases), "flag_sets": list(fss), "ssa_step_limit_per_path": max_steps,
          "alphabet": "all 256 byte values" if unconstrained else "terminal bytes of the grammar (both cases) + \\n z 0xC3 0xA9"}
     b.update(bounds_extra or {})
@@ -214,15 +217,15 @@ def check_C17(tier, seed):
 
 
 def check_C02(tier, seed):
-    return run_ref_property("C02", tier, seed, cores.context_catalogue() + cores.composites(), ["C02"], 4, 5, tq=120)
+    return run_ref_property("C02", tier, seed, cores.context_catalogue() + cores.composites(), ["C02"], 4, 5, tq=120, lemmas=["Action", "Label"])
 
 
 def check_C05(tier, seed):
-    return run_ref_property("C05", tier, seed, cores.state_catalogue(), ["C05"], 4, 5, flagsets_q=("std", "opt"), quick_stride=1, tq=120, tt=1800)
+    return run_ref_property("C05", tier, seed, cores.state_catalogue(), ["C05"], 4, 5, flagsets_q=("std", "opt"), quick_stride=1, tq=120, tt=1800, lemmas=["Seq", "Choice", "And", "Not", "Action", "Star", "Opt"])
 
 
 def check_C14(tier, seed):
-    return run_ref_property("C14", tier, seed, cores.throw_catalogue(), ["C14"], 4, 6, flagsets_q=("std", "opt"), tq=120, tt=1800)
+    return run_ref_property("C14", tier, seed, cores.throw_catalogue(), ["C14"], 4, 6, flagsets_q=("std", "opt"), tq=120, tt=1800, lemmas=["Recovery", "Throw"])
 
 
 def check_C11(tier, seed):
@@ -267,7 +270,7 @@ def check_C09(tier, seed):
     w = Work()
     w.build_pigeon()
     quick = tier == "quick"
-    N, tmo = (3, 60) if quick else (4, 900)
+    N, tmo = (4, 120) if quick else (5, 1800)
     cat = cores.opt_catalogue() + cores.composites() + cores.context_catalogue() + cores.throw_catalogue() + (cores.pair_core()[::5] if quick else cores.pair_core())
     cases = []
     for g in cat:
@@ -1144,3 +1147,54 @@ func Harness_ST(n int) {
             print("  ", m[:400])
         return 2
     return 0
+
+
+LEM_STATE = {
+    "STATE_INIT": 'p.cur.state["k"] = 5',
+    "STATE_SNAP": 's.state = map[string]any{}\n\tfor k, v := range p.cur.state {\n\t\ts.state[k] = v\n\t}',
+    "KID_MUT": 'if symChoose("kid_mut", 2) == 1 {\n\t\tval := 100 + i\n\t\titems = append([]any{&stateCodeExpr{run: func(q *parser) error {\n\t\t\tq.cur.state["k"] = val\n\t\t\tq.cur.state["new"] = 1\n\t\t\treturn nil\n\t\t}}}, items...)\n\t}',
+    "STATE_EQ_ALWAYS": 'symAssert(lemStateEq(p, e), "predicate: the state store is not rolled back after a predicate")',
+    "STATE_EQ": 'symAssert(lemStateEq(p, e), what+": a failing expression left the state store changed")',
+    "ACTION_MUT": 'q.cur.state["k"] = 77\n\t\tq.cur.state["tmp"] = 1',
+    "ACTION_STATE": '_, hasTmp := p.cur.state["tmp"]\n\t\tsymAssert(!hasTmp && !symEqual(p.cur.state["k"], 77), "action: changes made to the state inside an action block were kept")',
+}
+LEM_STATE_HELPER = '''
+func lemStateEq(p *parser, e lemSnapT) bool {
+	if len(p.cur.state) != len(e.state) {
+		return false
+	}
+	for k, v := range e.state {
+		w, ok := p.cur.state[k]
+		if !ok || !symEqual(v, w) {
+			return false
+		}
+	}
+	return true
+}
+'''
+
+
+def lemma_case(name, flags, with_state):
+    """A generated parser (trivial grammar; the runtime is what matters) plus the lemma harnesses."""
+    peg = "{\npackage p\n}\nS <- 'a' %s .*\n" % ("#{ return nil }" if with_state else "")
+    rel = "lem_%s/p" % name
+    src = open(os.path.join(VERIF, "harness", "lemmas_parser.go.tmpl")).read().replace("PKGPATH", "vh/" + rel)
+    # order matters: STATE_EQ_ALWAYS before STATE_EQ
+    for key in ("STATE_EQ_ALWAYS", "STATE_INIT", "STATE_SNAP", "KID_MUT", "STATE_EQ", "ACTION_MUT", "ACTION_STATE"):
+        src = src.replace(key, LEM_STATE[key] if with_state else "")
+    if with_state:
+        src += LEM_STATE_HELPER
+    names = re.findall(r"func (Harness_Lem\w+)\(", src)
+    return catcheck.Case("lem_" + name, [(rel, peg, flags)], rel, {"lemmas.go": src}, names, peg=peg, meta={"flags": flags})
+
+
+def run_lemmas(w, rep, prop, which, N, tmo=300):
+    """Runs the lemma harnesses `which` (regex alternatives) on the four template instances."""
+    cases = [lemma_case("std", [], True), lemma_case("optstate", ["-optimize-parser"], True), lemma_case("opt", ["-optimize-parser"], False)]
+    catcheck.prepare(w, cases)
+    hre = r"Harness_Lem(%s)$" % "|".join(which)
+    agg = catcheck.explore(w, rep, cases, prop, hre, N, tmo, "lemma", seed=0, validate_pkgs=3, sample_every=200)
+    rep.cov["lemma_obligations"] = {"functions": ["parse%sExpr/Matcher" % x for x in which], "template_instances": ["standard", "-optimize-parser with state", "-optimize-parser without state"],
+                                    "input_bytes_max": N, "paths": agg["paths"], "assertions_checked": agg["asserts"], "assertions_discharged": agg["discharged"],
+                                    "counterexamples": agg["cex"], "note": "children are real expression nodes whose behaviour is chosen nondeterministically among those contract K allows (fail, consume-then-fail, succeed consuming 0 or 1 rune, with or without a state change; plain, labelled action or rule reference); pre-state: any canonical position, symbolic input; runs natively as well"}
+    return agg
